@@ -575,6 +575,37 @@ def check_jp_report(sheets, exp, run):
                     if int(row[0][0]) != tstamp.month or int(row[1][0]) != tstamp.day:
                         out.append(("C20", f"sheet '{name}' row {ri + 1}: month/day {row[0][0]}/{row[1][0]} != {tstamp.month}/{tstamp.day} (input row {t.internal_id})"))
                         break
+                    # exchange, type, purchased amount / yen, sold amount / yen, fee (the columns the statement lists)
+                    v = lambda c: row[c][0]
+                    F = lambda x: Fr(str(x))
+                    bad = []
+                    if tab == "IN":
+                        fee = F(t.crypto_fee) * F(t.spot_price) if F(t.crypto_fee) > 0 else F(t.fiat_fee)
+                        if v(2) != t.exchange or str(v(3)).upper() != t.transaction_type.value.upper():
+                            bad.append(f"exchange/type {v(2)}/{v(3)}")
+                        if not close(v(4), F(t.crypto_in)) or not close(v(5), F(t.crypto_in) * F(t.spot_price)):
+                            bad.append(f"purchased {v(4)} / {v(5)} != {t.crypto_in} / {float(F(t.crypto_in) * F(t.spot_price))}")
+                        if not close(v(8) or 0, fee):
+                            bad.append(f"fee {v(8)} != {float(fee)}")
+                    elif tab == "OUT":
+                        fee = F(t.crypto_fee) * F(t.spot_price) if F(t.crypto_fee) > 0 else F(t.fiat_fee)
+                        if v(2) != t.exchange or str(v(3)).upper() != t.transaction_type.value.upper():
+                            bad.append(f"exchange/type {v(2)}/{v(3)}")
+                        if not close(v(6), F(t.crypto_out_with_fee)):
+                            bad.append(f"sold amount {v(6)} != {t.crypto_out_with_fee}")
+                        if t.transaction_type.value != "donate" and not close(v(7), F(t.crypto_out_no_fee) * F(t.spot_price)):
+                            bad.append(f"sold yen {v(7)!r} != {float(F(t.crypto_out_no_fee) * F(t.spot_price))}")
+                        if t.transaction_type.value == "donate" and isinstance(v(7), (int, float)) and v(7) != 0:
+                            bad.append(f"a donation shows sale proceeds {v(7)!r}")
+                        if not close(v(8) or 0, fee):
+                            bad.append(f"fee {v(8)} != {float(fee)}")
+                    else:
+                        feec = F(t.crypto_sent) - F(t.crypto_received)
+                        if not close(v(6), feec) or not close(v(7), feec * F(t.spot_price)):
+                            bad.append(f"transfer fee {v(6)} / {v(7)} != {float(feec)} / {float(feec * F(t.spot_price))}")
+                    if bad:
+                        out.append(("C20", f"sheet '{name}' row {ri + 1} (input row {t.internal_id}): " + "; ".join(bad[:3])))
+                        break
             # opening balance cells: row 20 (index 19), columns H/I hold `0` or a reference to the previous year's closing cells
             n_rows = len(want_rows)
             open_idx = 21 + n_rows + 8          # the two opening-balance cells (quantity, yen) sit in column E, 8 and 9 rows below the last transaction row
